@@ -585,4 +585,312 @@ theorem sortNat_sorted (l : List Nat) : (sortNat l).Pairwise (· ≤ ·) := by
     simp only [sortNat, List.foldr_cons]
     exact insertSorted_sorted x _ ih
 
+
+/-! ## Round 2: the loops as written, wrapping phase numbers, the month loop -/
+
+theorem foldl_set_range (f : Nat → α) (init : List α) (k : Nat) (hk : k ≤ init.length) :
+    (List.range k).foldl (fun M i => M.set i (f i)) init
+      = (List.range k).map f ++ init.drop k := by
+  induction k with
+  | zero => simp
+  | succ k ih =>
+    rw [List.range_succ, List.foldl_append, ih (by omega)]
+    simp only [List.foldl_cons, List.foldl_nil, List.map_append, List.map_cons, List.map_nil]
+    have hl : ((List.range k).map f).length = k := by simp
+    rw [List.set_append_right _ _ (by omega), hl, Nat.sub_self]
+    have : init.drop k = init[k] :: init.drop (k + 1) := by
+      rw [List.drop_eq_getElem_cons (by omega)]
+    rw [this]
+    simp [List.set]
+
+theorem phaseMeanLoop_eq (c n : Nat) (obs : Mat) : phaseMeanLoop c n obs = phaseMean c n obs := by
+  unfold phaseMeanLoop phaseMean
+  rw [foldl_set_range (fun i => colMean n (everyNth c i obs)) _ c (by simp)]
+  simp
+
+theorem arange_phase (c ry i : Nat) (hi : i < c) :
+    arange i (ry * c) c = (List.range ry).map fun y => i + y * c := by
+  unfold arange
+  have : (ry * c - i + c - 1) / c = ry := by
+    cases ry with
+    | zero =>
+      simp only [Nat.zero_mul, Nat.zero_sub, Nat.zero_add]
+      exact Nat.div_eq_of_lt (by omega)
+    | succ r =>
+      have h1 : (r + 1) * c - i + c - 1 = c * (r + 1) + (c - 1 - i) := by
+        have : (r + 1) * c = c * (r + 1) := Nat.mul_comm _ _
+        have h2 : c ≤ c * (r + 1) := Nat.le_mul_of_pos_right c (by omega)
+        omega
+      rw [h1, Nat.mul_add_div (by omega), Nat.div_eq_of_lt (by omega)]
+  rw [this]
+
+theorem foldl_rowAssign (c ry : Nat) (k : Nat) (hk : k ≤ c) :
+    (List.range k).foldl
+      (fun (acc : Res (List (List Nat))) i =>
+        acc.bind fun M => rowAssign ry M i (arange i (ry * c) c))
+      (Res.ok (List.replicate c (List.replicate ry 0)))
+    = Res.ok ((List.range k).map (fun i => (List.range ry).map fun y => i + y * c)
+        ++ List.replicate (c - k) (List.replicate ry 0)) := by
+  induction k with
+  | zero => simp
+  | succ k ih =>
+    rw [List.range_succ, List.foldl_append, ih (by omega)]
+    simp only [List.foldl_cons, List.foldl_nil, Res.bind]
+    rw [arange_phase c ry k (by omega)]
+    simp only [rowAssign, List.length_map, List.length_range, if_true]
+    congr 1
+    have hl : ((List.range k).map (fun i => (List.range ry).map fun y => i + y * c)).length = k := by
+      simp
+    rw [List.set_append_right _ _ (by omega), hl, Nat.sub_self]
+    have : c - k = (c - (k + 1)) + 1 := by omega
+    rw [this, List.replicate_succ]
+    simp
+
+/-- the loop of `phase_indices()` never fails for a positive cycle and computes the closed form -/
+theorem phaseIndicesLoop_eq (c T : Nat) (hc : 0 < c) :
+    phaseIndicesLoop c T
+      = .ok ((List.range c).map fun i => (List.range (T / c)).map fun y => i + y * c) := by
+  unfold phaseIndicesLoop
+  simp only [Nat.ne_of_gt hc, if_false]
+  rw [foldl_rowAssign c (T / c) c (Nat.le_refl c)]
+  simp
+
+
+/-! ### negative (wrapping) phase numbers -/
+
+theorem normIndex_valid (n : Nat) (p : Int) (h1 : -(n : Int) ≤ p) (h2 : p < (n : Int)) :
+    normIndex n p = some (p % (n : Int)).toNat := by
+  unfold normIndex
+  by_cases h0 : 0 ≤ p
+  · simp only [h0, h2, if_true]
+    rw [Int.emod_eq_of_lt h0 h2]
+  · simp only [h0, h1, if_false, if_true]
+    have : p % (n : Int) = p + n := by
+      rw [← Int.add_emod_right p n]
+      exact Int.emod_eq_of_lt (by omega) (by omega)
+    rw [this]
+
+theorem normIndex_invalid (n : Nat) (p : Int) (h : p < -(n : Int) ∨ (n : Int) ≤ p) :
+    normIndex n p = none := by
+  unfold normIndex
+  by_cases h0 : 0 ≤ p
+  · have : ¬ p < (n : Int) := by omega
+    simp [h0, this]
+  · have : ¬ -(n : Int) ≤ p := by omega
+    simp [h0, this]
+
+theorem normAll_valid (n : Nat) (sel : List Int)
+    (h : ∀ p ∈ sel, -(n : Int) ≤ p ∧ p < (n : Int)) :
+    normAll n sel = some (sel.map fun p => (p % (n : Int)).toNat) := by
+  induction sel with
+  | nil => rfl
+  | cons p ps ih =>
+    have hp := h p (by simp)
+    simp only [normAll, normIndex_valid n p hp.1 hp.2,
+      ih (fun q hq => h q (List.mem_cons_of_mem _ hq)), List.map_cons]
+
+theorem normAll_invalid (n : Nat) (sel : List Int)
+    (h : ∃ p ∈ sel, p < -(n : Int) ∨ (n : Int) ≤ p) : normAll n sel = none := by
+  induction sel with
+  | nil => obtain ⟨p, hp, _⟩ := h; simp at hp
+  | cons q qs ih =>
+    obtain ⟨p, hp, hbad⟩ := h
+    rcases List.mem_cons.mp hp with rfl | hp'
+    · simp [normAll, normIndex_invalid n p hbad]
+    · have := ih ⟨p, hp', hbad⟩
+      simp only [normAll, this]
+      split <;> simp_all
+
+theorem toNat_emod_lt (c : Nat) (hc : 0 < c) (p : Int) : (p % (c : Int)).toNat < c := by
+  have h1 := Int.emod_nonneg p (by omega : (c : Int) ≠ 0)
+  have h2 := Int.emod_lt_of_pos p (by omega : (0 : Int) < c)
+  omega
+
+/-- valid integer phase numbers: the result is that of the wrapped natural numbers -/
+theorem selectedI_valid (c T : Nat) (hc : 0 < c) (sel : List Int)
+    (h : ∀ p ∈ sel, -(c : Int) ≤ p ∧ p < (c : Int)) :
+    indicesSelectedPhasesI c T sel
+      = indicesSelectedPhases c T (sel.map fun p => (p % (c : Int)).toNat) := by
+  unfold indicesSelectedPhasesI indicesSelectedPhases
+  rw [phaseIndicesLoop_eq c T hc, normAll_valid c sel h]
+  have hall : ((sel.map fun p => (p % (c : Int)).toNat).all (· < c)) = true := by
+    simp only [List.all_eq_true, decide_eq_true_eq, List.mem_map]
+    rintro _ ⟨p, _, rfl⟩
+    exact toNat_emod_lt c hc p
+  simp only [Res.bind, phaseIndices, Nat.ne_of_gt hc, if_false, hall, if_true]
+
+theorem selectedI_invalid (c T : Nat) (hc : 0 < c) (sel : List Int)
+    (h : ∃ p ∈ sel, p < -(c : Int) ∨ (c : Int) ≤ p) :
+    indicesSelectedPhasesI c T sel = .indexError := by
+  unfold indicesSelectedPhasesI
+  rw [phaseIndicesLoop_eq c T hc, normAll_invalid c sel h]
+  rfl
+
+/-- membership in the result of `indices_selected_phases`: exactly the indices of the
+complete years whose phase is selected -/
+theorem mem_selected_iff (c T : Nat) (hc : 0 < c) (sel : List Nat) (hs : ∀ p ∈ sel, p < c)
+    (idx : List Nat) (h : indicesSelectedPhases c T sel = .ok idx) (t : Nat) :
+    t ∈ idx ↔ t < (T / c) * c ∧ t % c ∈ sel := by
+  have hall : sel.all (· < c) = true := by
+    simp only [List.all_eq_true, decide_eq_true_eq]; exact hs
+  have hrows : (sel.map fun p => ((List.range c).map fun i =>
+        (List.range (T / c)).map fun y => i + y * c).getD p [])
+      = sel.map fun p => (List.range (T / c)).map fun y => p + y * c := by
+    apply List.map_congr_left
+    intro p hp
+    simp [List.getD, List.getElem?_map, List.getElem?_range (hs p hp)]
+  simp only [indicesSelectedPhases, phaseIndices, Nat.ne_of_gt hc, if_false, hall, if_true,
+    hrows, Res.ok.injEq] at h
+  subst h
+  rw [(sortNat_perm _).mem_iff]
+  simp only [List.mem_flatten, List.mem_map]
+  constructor
+  · rintro ⟨row, ⟨p, hp, rfl⟩, hrow⟩
+    simp only [List.mem_map, List.mem_range] at hrow
+    obtain ⟨y, hy, rfl⟩ := hrow
+    have hpc := hs p hp
+    have h1 : (y + 1) * c ≤ (T / c) * c := Nat.mul_le_mul_right c hy
+    rw [Nat.succ_mul] at h1
+    refine ⟨by omega, ?_⟩
+    rw [Nat.add_mul_mod_self_right, Nat.mod_eq_of_lt hpc]
+    exact hp
+  · rintro ⟨hlt, hmem⟩
+    refine ⟨_, ⟨t % c, hmem, rfl⟩, ?_⟩
+    simp only [List.mem_map, List.mem_range]
+    refine ⟨t / c, ?_, ?_⟩
+    · exact Nat.div_lt_of_lt_mul (by rw [Nat.mul_comm]; exact hlt)
+    · have := Nat.mod_add_div t c
+      rw [Nat.mul_comm] at this
+      exact this
+
+theorem length_flatten_const (k : Nat) (ls : List (List Nat)) (h : ∀ l ∈ ls, l.length = k) :
+    ls.flatten.length = ls.length * k := by
+  induction ls with
+  | nil => simp
+  | cons l ls ih =>
+    simp only [List.flatten_cons, List.length_append, List.length_cons]
+    rw [ih (fun l' hl' => h l' (List.mem_cons_of_mem _ hl')), h l (by simp), Nat.succ_mul]
+    omega
+
+theorem selected_length (c T : Nat) (hc : 0 < c) (sel : List Nat) (hs : ∀ p ∈ sel, p < c)
+    (idx : List Nat) (h : indicesSelectedPhases c T sel = .ok idx) :
+    idx.length = sel.length * (T / c) := by
+  have hall : sel.all (· < c) = true := by
+    simp only [List.all_eq_true, decide_eq_true_eq]; exact hs
+  simp only [indicesSelectedPhases, phaseIndices, Nat.ne_of_gt hc, if_false, hall, if_true,
+    Res.ok.injEq] at h
+  subst h
+  rw [(sortNat_perm _).length_eq, length_flatten_const (T / c)]
+  · simp
+  · intro l hl
+    obtain ⟨p, hp, rfl⟩ := List.mem_map.mp hl
+    simp [List.getD, List.getElem?_map, List.getElem?_range (hs p hp)]
+
+/-! ### the month → day loop -/
+
+theorem foldl_append_singleton (g : Nat → β) (acc : List β) (k : Nat) :
+    (List.range k).foldl (fun acc d => acc ++ [g d]) acc = acc ++ (List.range k).map g := by
+  induction k with
+  | zero => simp
+  | succ k ih => rw [List.range_succ, List.foldl_append, ih]; simp
+
+theorem foldl_append_flatMap (h : α → List β) (acc : List β) (ms : List α) :
+    ms.foldl (fun acc m => acc ++ h m) acc = acc ++ ms.flatMap h := by
+  induction ms generalizing acc with
+  | nil => simp
+  | cons m ms ih => simp [ih]
+
+/-- the two nested loops build the days of the selected months, month by month -/
+theorem monthDays_eq (months : List Int) :
+    monthDays months = months.flatMap fun m => (List.range 30).map fun d => m * 30 + Int.ofNat d := by
+  unfold monthDays
+  have : (fun (acc : List Int) (m : Int) =>
+        (List.range 30).foldl (fun acc d => acc ++ [m * 30 + Int.ofNat d]) acc)
+      = fun acc m => acc ++ (List.range 30).map fun d => m * 30 + Int.ofNat d := by
+    funext acc m
+    exact foldl_append_singleton _ acc 30
+  rw [this, foldl_append_flatMap]
+  simp
+
+theorem mem_monthDays (months : List Int) (x : Int) :
+    x ∈ monthDays months ↔ ∃ m ∈ months, ∃ d : Nat, d < 30 ∧ x = m * 30 + (d : Int) := by
+  rw [monthDays_eq]
+  simp only [List.mem_flatMap, List.mem_map, List.mem_range]
+  constructor
+  · rintro ⟨m, hm, d, hd, rfl⟩; exact ⟨m, hm, d, hd, rfl⟩
+  · rintro ⟨m, hm, d, hd, rfl⟩; exact ⟨m, hm, d, hd, rfl⟩
+
+/-! ### `int(T / c)` -/
+
+theorem floor_div_nat (T c : Nat) (hc : 0 < c) :
+    Rat.floor (((T : Int) : Rat) / ((c : Int) : Rat)) = ((T / c : Nat) : Int) := by
+  have hcq : (0 : Rat) < ((c : Int) : Rat) := by
+    have : ((0 : Int) : Rat) < ((c : Int) : Rat) := Rat.intCast_lt_intCast.mpr (by omega)
+    simpa using this
+  have hci : (0 : Int) < (c : Int) := by omega
+  have hk : ((T / c : Nat) : Int) = (T : Int) / (c : Int) := by simp
+  rw [hk]
+  apply Int.le_antisymm
+  · -- floor < k + 1
+    have : Rat.floor (((T : Int) : Rat) / ((c : Int) : Rat)) < (T : Int) / (c : Int) + 1 := by
+      rw [Rat.floor_lt_iff, Rat.div_lt_iff hcq, ← Rat.intCast_mul, Rat.intCast_lt_intCast]
+      exact Int.lt_ediv_add_one_mul_self _ hci
+    omega
+  · apply Int.not_lt.mp
+    rw [Rat.floor_lt_iff, Rat.div_lt_iff hcq, ← Rat.intCast_mul, Rat.intCast_lt_intCast]
+    have := Int.ediv_mul_le (T : Int) (Int.ne_of_gt hci)
+    omega
+
+/-! ### rescaling -/
+
+/-- multiply every entry of a row / of a matrix by `k` -/
+def smul (k : Rat) (v : Vec) : Vec := v.map (k * ·)
+def msmul (k : Rat) (A : Mat) : Mat := A.map (smul k)
+
+theorem everyNth_map {α β : Type} (f : α → β) (c k : Nat) (xs : List α) :
+    everyNth c k (xs.map f) = (everyNth c k xs).map f := by
+  rw [everyNth_eq_select, everyNth_eq_select, List.length_map, select_map]
+
+theorem vadd_smul (k : Rat) (a b : Vec) : vadd (smul k a) (smul k b) = smul k (vadd a b) := by
+  induction a generalizing b with
+  | nil => simp [vadd, smul]
+  | cons x xs ih =>
+    cases b with
+    | nil => simp [vadd, smul]
+    | cons y ys =>
+      have := ih ys
+      simp only [vadd, smul, List.map_cons, List.zipWith_cons_cons] at this ⊢
+      rw [this, Rat.mul_add]
+
+theorem vsub_smul (k : Rat) (a b : Vec) : vsub (smul k a) (smul k b) = smul k (vsub a b) := by
+  induction a generalizing b with
+  | nil => simp [vsub, smul]
+  | cons x xs ih =>
+    cases b with
+    | nil => simp [vsub, smul]
+    | cons y ys =>
+      have := ih ys
+      simp only [vsub, smul, List.map_cons, List.zipWith_cons_cons] at this ⊢
+      rw [this]
+      congr 1
+      rw [Rat.sub_eq_add_neg, Rat.sub_eq_add_neg, Rat.mul_add, Rat.mul_neg]
+
+theorem colSum_smul (k : Rat) (n : Nat) (rows : Mat) :
+    colSum n (msmul k rows) = smul k (colSum n rows) := by
+  induction rows with
+  | nil => simp [msmul, colSum, smul, zeros]
+  | cons r rs ih =>
+    simp only [msmul, List.map_cons, colSum] at ih ⊢
+    rw [ih, vadd_smul]
+
+theorem meanRow_smul (k : Rat) (c n : Nat) (obs : Mat) (p : Nat) :
+    meanRow c n (msmul k obs) p = smul k (meanRow c n obs p) := by
+  unfold meanRow
+  have e : everyNth c p (msmul k obs) = msmul k (everyNth c p obs) := everyNth_map _ _ _ _
+  rw [e, colSum_smul]
+  simp only [msmul, smul, List.length_map, List.map_map]
+  apply List.map_congr_left
+  intro x _
+  simp only [Function.comp, Rat.div_def, Rat.mul_assoc]
+
 end Pyunicorn.Window
